@@ -47,6 +47,28 @@ type zstdCompression struct {
 	*zstdchunked.Decompressor
 }
 
+// sharedComp is ONE compression object used for several blobs.
+type sharedComp struct {
+	comp estargz.Compression
+	ext  *externaltoc.GzipCompression
+}
+
+type gzipCompression struct {
+	*estargz.GzipCompressor
+	*estargz.GzipDecompressor
+}
+
+func newShared(o buildOpts) (*sharedComp, error) {
+	comp, ext, err := compressionFor(o)
+	if err != nil {
+		return nil, err
+	}
+	if comp == nil { // gzip: the exported compressor with level
+		comp = &gzipCompression{estargz.NewGzipCompressorWithLevel(o.Level), &estargz.GzipDecompressor{}}
+	}
+	return &sharedComp{comp: comp, ext: ext}, nil
+}
+
 func compressionFor(o buildOpts) (estargz.Compression, *externaltoc.GzipCompression, error) {
 	switch o.Scheme {
 	case "zstdchunked":
@@ -64,7 +86,7 @@ func compressionFor(o buildOpts) (estargz.Compression, *externaltoc.GzipCompress
 }
 
 // runBuild drives estargz.Build over the (possibly compressed) input bytes.
-func runBuild(input []byte, o buildOpts) (*built, error) {
+func runBuild(input []byte, o buildOpts, sh *sharedComp) (*built, error) {
 	var opts []estargz.Option
 	opts = append(opts, estargz.WithChunkSize(o.Chunk))
 	if o.MinChunk > 0 {
@@ -83,6 +105,9 @@ func runBuild(input []byte, o buildOpts) (*built, error) {
 	comp, ext, err := compressionFor(o)
 	if err != nil {
 		return nil, err
+	}
+	if sh != nil {
+		comp, ext = sh.comp, sh.ext
 	}
 	if comp != nil {
 		opts = append(opts, estargz.WithCompression(comp))
@@ -123,11 +148,14 @@ func runBuild(input []byte, o buildOpts) (*built, error) {
 
 // runWriter drives the Writer API: each element of inputs is handed to one
 // AppendTar / AppendTarLossLess call, then Close.
-func runWriter(inputs [][]byte, o buildOpts, lossless bool) (*built, error) {
+func runWriter(inputs [][]byte, o buildOpts, lossless bool, sh *sharedComp) (*built, error) {
 	var out bytes.Buffer
 	comp, ext, err := compressionFor(o)
 	if err != nil {
 		return nil, err
+	}
+	if sh != nil {
+		comp, ext = sh.comp, sh.ext
 	}
 	var w *estargz.Writer
 	if comp == nil {
